@@ -1,0 +1,41 @@
+use crate::{
+    archetype::Archetype,
+    registry::Registry,
+    verif::ArchetypeDump,
+};
+use alloc::vec::Vec;
+use core::slice;
+
+impl<R> Archetype<R>
+where
+    R: Registry,
+{
+    pub(crate) fn verif_dump(&self) -> ArchetypeDump {
+        ArchetypeDump {
+            identifier_addr: self.identifier.verif_addr(),
+            identifier_capacity: self.identifier.verif_capacity(),
+            // SAFETY: The slice does not outlive `self.identifier`.
+            identifier_bytes: unsafe { self.identifier.as_slice() }.to_vec(),
+            length: self.length,
+            entity_identifiers: if self.length == 0 {
+                Vec::new()
+            } else {
+                // SAFETY: `self.entity_identifiers` contains the raw parts for a valid `Vec` of
+                // size `self.length`.
+                unsafe { slice::from_raw_parts(self.entity_identifiers.0, self.length) }
+                    .iter()
+                    .map(|identifier| (identifier.index, identifier.generation))
+                    .collect()
+            },
+            entity_identifier_column: (
+                self.entity_identifiers.0 as usize,
+                self.entity_identifiers.1,
+            ),
+            columns: self
+                .components
+                .iter()
+                .map(|(pointer, capacity)| (*pointer as usize, *capacity))
+                .collect(),
+        }
+    }
+}
